@@ -22,14 +22,29 @@ def _is_symnum(x):
 # ----------------------------------------------------------------------------------
 # real functions (assumed contract 5.3): uninterpreted symbols + the facts instantiated on use
 # ----------------------------------------------------------------------------------
-def real_fun(name, orig=None):
+def real_fun(name, orig=None, numpy_like=False):
     def f(interp, x, *rest, **kw):
+        from .qmodel import Quantity
+        if isinstance(x, Quantity):
+            if numpy_like:
+                if x.u:
+                    raise ValueError("Unable to convert between units of %r and dimensionless" % (x.u,))
+                x = x.mag
+            else:
+                x = x.raw_float()   # math.f(q) == f(float(q)): the raw magnitude
+            if isinstance(x, Sym):
+                return f(interp, x, *rest, **kw)
+            return (orig or getattr(math, name))(x, *rest, **kw)
         if not isinstance(x, Sym):
             if isinstance(x, Unknown):
                 return Unknown(name)
             if contains_sym(x):
                 raise Unsupported("%s of container" % name)
             return (orig or getattr(math, name))(x, *rest, **kw)
+        if name == "log":
+            return sym_log(x)
+        if name == "sqrt":
+            return sym_sqrt(x)
         ex = to_z3(x, "real")
         r = ufun(name)(ex)
         p = cur()
@@ -158,6 +173,9 @@ def b_isinstance(interp, v, t):
 
 
 def b_float(interp, x=0.0):
+    from .qmodel import Quantity
+    if isinstance(x, Quantity):
+        return b_float(interp, x.raw_float())
     if isinstance(x, Sym):
         if x.kind == "int":
             return Sym(z3.ToReal(x.e))
@@ -671,8 +689,24 @@ def install(interp):
         r(getattr(math, name), real_fun(name, getattr(math, name)))
     try:
         import numpy as np
+
+        def np_any(interp, a, *rest, **kw):
+            if isinstance(a, Sym):
+                return interp.bool_value(a)
+            if contains_sym(a):
+                return b_any(interp, list(a) if not isinstance(a, (SymSeq,)) else a)
+            return np.any(a, *rest, **kw)
+
+        def np_all(interp, a, *rest, **kw):
+            if isinstance(a, Sym):
+                return interp.bool_value(a)
+            if contains_sym(a):
+                return b_all(interp, list(a) if not isinstance(a, (SymSeq,)) else a)
+            return np.all(a, *rest, **kw)
+        r(np.any, np_any)
+        r(np.all, np_all)
         for name, canon in (("exp", "exp"), ("log", "log"), ("sqrt", "sqrt"), ("tanh", "tanh"), ("log10", "log10"),
                             ("sin", "sin"), ("cos", "cos"), ("arctanh", "atanh"), ("log2", "log2")):
-            r(getattr(np, name), real_fun(canon, getattr(np, name)))
+            r(getattr(np, name), real_fun(canon, getattr(np, name), numpy_like=True))
     except ImportError:
         pass
